@@ -55,5 +55,9 @@ class TruncateStringFilter:
                 quote = "'"
 
             if len(inner) > self.width:
-                value = ''.join((quote, inner[:self.width], self.char, quote))
+                head = inner[:self.width]
+                if (len(head) - len(head.rstrip("'"))) % 2:
+                    # never cut a doubled quote ('') in half
+                    head = inner[:self.width + 1]
+                value = ''.join((quote, head, self.char, quote))
             yield ttype, value
